@@ -59,12 +59,15 @@ static int is_pole_cell(H3Index h) {
 }
 typedef struct {
     V3 p;
+    int64_t cell; /* index (in the sorted set) of an input cell that has this boundary vertex */
 } bpt;
 static int cmp_bpt(const void *a, const void *b) {
     ld x = ((const bpt *)a)->p.x, y = ((const bpt *)b)->p.x;
     return x < y ? -1 : x > y;
 }
-static int is_boundary_point(const bpt *pts, int64_t n, V3 q) {
+/* 1-based index of an input cell that has q as a boundary vertex, 0 if none.  (All input cells that meet at one vertex are
+ * pairwise edge-adjacent, hence in one component: any of them identifies the component the vertex belongs to.) */
+static int64_t is_boundary_point(const bpt *pts, int64_t n, V3 q) {
     int64_t lo = 0, hi = n;
     while (lo < hi) {
         int64_t mid = (lo + hi) / 2;
@@ -73,7 +76,7 @@ static int is_boundary_point(const bpt *pts, int64_t n, V3 q) {
     }
     for (int64_t i = lo; i < n && pts[i].p.x <= q.x + 1e-12L; i++) {
         V3 d = v3_sub(pts[i].p, q);
-        if (v3_dot(d, d) < 1e-24L) return 1;
+        if (v3_dot(d, d) < 1e-24L) return pts[i].cell + 1;
     }
     return 0;
 }
@@ -174,6 +177,8 @@ static void judge_set(vec *S, const char *what, int corpus) {
     int64_t sum_edges = 0, outline_edges = 0, exp_vertices = 0;
     ld area_cells = 0;
     bpt *pts = malloc((size_t)S->n * MAX_CELL_BNDRY_VERTS * sizeof(bpt));
+    ld *cell_area = calloc((size_t)S->n, sizeof(ld)), *comp_area = calloc((size_t)S->n, sizeof(ld));
+    char *comp_seen = calloc((size_t)S->n, 1);
     int64_t npts = 0;
     vec verts = {0};
     int undecided = 0;
@@ -189,11 +194,16 @@ static void judge_set(vec *S, const char *what, int corpus) {
             undecided = 1;
             break;
         }
-        for (int k = 0; k < A.n; k++) pts[npts++].p = A.v[k];
+        for (int k = 0; k < A.n; k++) {
+            pts[npts].p = A.v[k];
+            pts[npts++].cell = i;
+        }
+
         sum_edges += m;
         double a;
         if (cellAreaRads2(S->a[i], &a)) undecided = 1;
         area_cells += a;
+        cell_area[i] = a;
         H3Index V[6] = {0};
         if (cellToVertexes(S->a[i], V)) undecided = 1;
         for (int k = 0; k < 6; k++)
@@ -223,8 +233,10 @@ static void judge_set(vec *S, const char *what, int corpus) {
     /* per-component Euler characteristic */
     sort_unique(&verts);
     int64_t ncomp = 0;
-    for (int64_t i = 0; i < S->n; i++)
+    for (int64_t i = 0; i < S->n; i++) {
         if (uf_find(uf, i) == i) ncomp++;
+        comp_area[uf_find(uf, i)] += cell_area[i];
+    }
     /* V - E + F summed over components = V - E + F of the whole set (components are disjoint) */
     int64_t Vn = verts.n, En = (sum_edges + outline_edges) / 2, Fn = S->n;
     int64_t exp_loops = 2 * ncomp - (Vn - En + Fn);
@@ -259,18 +271,37 @@ static void judge_set(vec *S, const char *what, int corpus) {
             }
             npoly++;
             int first = 1;
+            int64_t pcomp = -1; /* component (union-find root) this polygon's outer loop outlines */
+            ld parea = 0;
             for (const LinkedGeoLoop *l = p->first; l && !prob[0]; l = l->next, first = 0) {
                 int nv;
                 ld a = loop_area(l, &nv);
                 nloops++;
                 nverts += nv;
                 area_out += a;
+                parea += a;
                 if (nv < 3) snprintf(prob, sizeof prob, "a loop with %d vertices", nv);
                 else if (first && !(a > 0)) snprintf(prob, sizeof prob, "outer loop of polygon %" PRId64 " is not counter-clockwise (signed area %.3Lg)", npoly, a);
                 else if (!first && !(a < 0)) snprintf(prob, sizeof prob, "hole loop of polygon %" PRId64 " is not clockwise (signed area %.3Lg)", npoly, a);
-                for (const LinkedLatLng *q = l->first; q && !prob[0]; q = q->next)
-                    if (!is_boundary_point(pts, npts, v3_from_ll(q->vertex)))
+                for (const LinkedLatLng *q = l->first; q && !prob[0]; q = q->next) {
+                    int64_t ci = is_boundary_point(pts, npts, v3_from_ll(q->vertex));
+                    if (!ci) {
                         snprintf(prob, sizeof prob, "loop vertex (%.15g, %.15g) is not a boundary vertex of any input cell", q->vertex.lat, q->vertex.lng);
+                        break;
+                    }
+                    int64_t root = uf_find(uf, ci - 1);
+                    if (pcomp < 0) pcomp = root;
+                    else if (root != pcomp)
+                        snprintf(prob, sizeof prob, "polygon %" PRId64 ": %s loop vertex (%.15g, %.15g) belongs to cell %016" PRIx64 " of another component than the polygon's outer loop (cell %016" PRIx64 ")",
+                                 npoly, first ? "outer" : "hole", q->vertex.lat, q->vertex.lng, S->a[ci - 1], S->a[pcomp]);
+                }
+            }
+            if (!prob[0] && pcomp >= 0) {
+                /* one polygon per component, and it encloses exactly that component's cells */
+                if (comp_seen[pcomp]) snprintf(prob, sizeof prob, "two polygons outline the component of cell %016" PRIx64, S->a[pcomp]);
+                comp_seen[pcomp] = 1;
+                if (!prob[0] && fabsl(parea - comp_area[pcomp]) > 1e-7L * comp_area[pcomp])
+                    snprintf(prob, sizeof prob, "polygon %" PRId64 " (outer loop + holes) encloses %.12Lg, the cells of its component (around %016" PRIx64 ") sum to %.12Lg", npoly, parea, S->a[pcomp], comp_area[pcomp]);
             }
         }
         if (!prob[0]) {
@@ -300,6 +331,9 @@ cleanup_oracle:
     vf_map_free(&idx);
     free(uf);
     free(pts);
+    free(cell_area);
+    free(comp_area);
+    free(comp_seen);
     free(verts.a);
 }
 
@@ -347,6 +381,50 @@ static void set_from_seed(uint64_t seed) {
     judge_set(&S, what, 0);
     free(S.a);
 }
+/* concentric rings: a random selection of the distance-rings around a centre (nested polygons: islands with holes inside the
+ * holes of larger rings), plus a few separate cells outside — the arrangement in which the assignment of holes to outer loops
+ * has several candidate containers */
+static void rings_from_seed(uint64_t seed) {
+    vf_case("rings %016" PRIx64, seed);
+    vf_rng r;
+    vf_rng_seed(&r, seed);
+    int res = 3 + (int)vf_below(&r, 13); /* res 0-2: the corpus; larger sets there mostly run into known finding F2 */
+    H3Index c = vf_below(&r, 6) ? vf_rand_cell(&r, res) : vf_make_cell(res, REF_PENT_BC[vf_below(&r, 12)], (int[15]){0});
+    int K = 4 + (int)vf_below(&r, VF_T(5, 8));
+    int64_t sz;
+    maxGridDiskSize(K, &sz);
+    H3Index *d = calloc((size_t)sz, 8);
+    int *dist = calloc((size_t)sz, sizeof(int));
+    vec S = {0};
+    char what[200];
+    int o = snprintf(what, sizeof what, "rings %016" PRIx64 ": centre %016" PRIx64 " rings", seed, c);
+    if (!gridDiskDistances(c, K, d, dist)) {
+        unsigned keep = 0;
+        /* alternate kept / dropped rings with random phase and occasional double-width rings */
+        int on = (int)vf_below(&r, 2);
+        for (int k = 0; k <= K; k++) {
+            if (on) keep |= 1u << k;
+            if (vf_below(&r, 4)) on = !on;
+        }
+        keep |= 1u << K; /* something outside */
+        for (int k = 0; k <= K; k++)
+            if (keep >> k & 1) o += snprintf(what + o, sizeof what - (size_t)o, " %d", k);
+        int outside = (int)vf_below(&r, 4); /* single cells of the outermost ring only: extra components */
+        for (int64_t i = 0; i < sz; i++) {
+            if (!d[i]) continue;
+            if (dist[i] == K) {
+                if (outside == 0 || vf_below(&r, (uint64_t)(2 * K)) < (uint64_t)outside) push(&S, d[i]);
+            } else if (keep >> dist[i] & 1)
+                push(&S, d[i]);
+        }
+    }
+    free(d);
+    free(dist);
+    vf_add("sets.rings", 1);
+    judge_set(&S, what, 0);
+    free(S.a);
+}
+
 /* exhaustive corpus of the coarse resolutions: every 1-disk and every neighbour pair */
 static void corpus(int res) {
     int64_t idx = 0;
@@ -405,6 +483,8 @@ static void run(void) {
     for (int res = 0; res <= VF_T(2, 3); res++) corpus(res);
     int n = VF_T(500, 8000);
     for (int i = 0; i < n; i++) set_from_seed(vf_u64(&r));
+    int nr = VF_T(400, 6000);
+    for (int i = 0; i < nr; i++) rings_from_seed(vf_u64(&r));
     vf_add("sets", n_sets);
     vf_add("cells_in", n_cells_in);
 }
@@ -413,6 +493,8 @@ static void replay(const char *spec) {
     vec S = {0};
     if (sscanf(spec, "set %" SCNx64, &a) == 1)
         set_from_seed(a);
+    else if (sscanf(spec, "rings %" SCNx64, &a) == 1)
+        rings_from_seed(a);
     else if (sscanf(spec, "pair %" SCNx64 " %" SCNx64, &a, &b) == 2) {
         push(&S, a);
         push(&S, b);
